@@ -725,6 +725,19 @@ impl FinishedSession {
             return Ok(Some(self));
         }
 
+        // Check validity before touching the rollback log: a stale changeset must leave no delta
+        // behind. The write guard is held, so the root cannot change until we are done.
+        {
+            let shared = nomt.shared.lock();
+            if shared.root != self.prev_root {
+                anyhow::bail!(
+                    "Changeset no longer valid (expected previous root {:?}, got {:?})",
+                    self.prev_root,
+                    shared.root
+                );
+            }
+        }
+
         if let Some(rollback_delta) = self.rollback_delta {
             // UNWRAP: if rollback_delta is `Some`, then rollback must be also `Some`.
             let rollback = nomt.store.rollback().unwrap();
@@ -736,13 +749,6 @@ impl FinishedSession {
 
         {
             let mut shared = nomt.shared.lock();
-            if shared.root != self.prev_root {
-                anyhow::bail!(
-                    "Changeset no longer valid (expected previous root {:?}, got {:?})",
-                    self.prev_root,
-                    shared.root
-                );
-            }
             shared.root = Root(self.merkle_output.root);
             shared.last_commit_marker = None;
         }
